@@ -442,6 +442,13 @@ def _wait(chk, repo, folder):
                     continue
                 head.append(st_)
             mine = [(e, p) for e, p in facts if f"{v}.code" in src(e)]
+            # the entry is handed out at ANY of the return sites: with several of them (one for "no filter", one for "code matches")
+            # the filter is the disjunction of what holds at each site (conditions on the filter and on the entry's code)
+            sites = [[(e, p) for e, p in ff.facts_at(r2) if f"{v}.code" in src(e) or "emcy_code" in src(e)] for r2 in entry_rets if src(r2.value) == v]
+            if len(sites) > 1 and all(sites):
+                if r is not [r2 for r2 in entry_rets if src(r2.value) == v][0]:
+                    continue                         # judged once, at the first site
+                mine = [(ast.BoolOp(op=ast.Or(), values=[conj_of_facts(fs_) for fs_ in sites]), True)]
             if mine:
                 import copy as _cp
                 fn_ = ast.FunctionDef(name="_filter", args=ast.arguments(posonlyargs=[], args=[ast.arg(arg="emcy_code"), ast.arg(arg=v)], kwonlyargs=[], kw_defaults=[], defaults=[]),
